@@ -7,6 +7,7 @@ import TantivyModel.Model.Positions
 import TantivyModel.Model.TermInfoStore
 import TantivyModel.Model.BlockCursor
 import TantivyModel.Model.Recorder
+import TantivyModel.Model.JsonPositions
 /-!
 Line protocol of the C07 model (see harness/src/props/c07.rs):
 
@@ -20,6 +21,7 @@ Line protocol of the C07 model (see harness/src/props/c07.rs):
 * `seek <opt> <doc_freq> <hex> <program>` → doc after every op
 * `pos_enc <deltas>` → hex; `pos_read <hex> <offset> <len>` → values | `err`
 * `blocksearch <values> <target>` → index
+* `invert_json <opt> <docs separated by ; and events by slash: <pathhex>~T~<tokens> | <pathhex>~N~<termhex>>` → `<terms>|<total_num_tokens>`
 * `pipeline <opt> <corpus>` → same format as `invert`, computed through recorders → serializer → decoder
 * `invert <opt> <corpus>` → `<terms>|<total_num_tokens>|<fieldnorm ids>`
 -/
@@ -86,6 +88,30 @@ def showTermInfo (t : TermInfoStore.TermInfo) : String :=
 def handleInvert (o : String) (corpus : String) : String :=
   match parseOpt o, parseCorpus corpus with
   | some o, some c => showInverted o (invert c)
+  | _, _ => "bad-op"
+
+def parseJEvent (s : String) : Option JsonPositions.JEvent :=
+  match s.splitOn "~" with
+  | [ph, "T", toks] =>
+    match natsOfHex ph, parseValue toks with
+    | some p, some v => some { path := p, text := true, toks := v }
+    | _, _ => none
+  | [ph, "N", th] =>
+    match natsOfHex ph, natsOfHex th with
+    | some p, some t => some { path := p, text := false, toks := [{ term := t, pos := 0, posLen := 1 }] }
+    | _, _ => none
+  | _ => none
+
+def parseJDoc (s : String) : Option (List JsonPositions.JEvent) :=
+  if s.isEmpty then some [] else (s.splitOn "/").mapM parseJEvent
+
+def handleInvertJson (o : String) (corpus : String) : String :=
+  match parseOpt o, (if corpus == "-" then some [] else (corpus.splitOn ";").mapM parseJDoc) with
+  | some o, some c =>
+    let r := JsonPositions.invertJson o c
+    (if r.1.isEmpty then "-" else ";".intercalate (r.1.map (fun e =>
+      (hexOfNats e.1).getD "bad" ++ "=" ++ ",".intercalate (e.2.map showPosting))))
+    ++ "|" ++ toString r.2
   | _, _ => "bad-op"
 
 /-- the modelled indexing pipeline, in the response format of `invert` -/
@@ -222,6 +248,8 @@ def handle : List String → String
     | _, _ => "bad-op"
   | ["invert", o, corpus] => handleInvert o corpus
   | ["invert", o] => handleInvert o ""
+  | ["invert_json", o, corpus] => handleInvertJson o corpus
+  | ["invert_json", o] => handleInvertJson o ""
   | ["pipeline", o, corpus] => handlePipeline o corpus
   | ["pipeline", o] => handlePipeline o ""
   | _ => "bad-op"
